@@ -391,7 +391,7 @@ def _tiny_terminal(rng, e, delta):
     return ex, ["tiny_terminal_left"]
 
 
-def _read_cigar_seq(rng, ref, exons, sub_rate, junction_noise, scramble=()):
+def _read_cigar_seq(rng, ref, exons, sub_rate, junction_noise, scramble=(), poly=None):
     """CIGAR (M/I/D/N) and query sequence for a read following `exons`; substitutions everywhere at `sub_rate`,
     extra substitutions / indels within 6 bp of the splice sites with probability `junction_noise`"""
     cig = []
@@ -403,6 +403,11 @@ def _read_cigar_seq(rng, ref, exons, sub_rate, junction_noise, scramble=()):
         ln = len(s)
         if i in scramble:
             s = [rng.choice([c for c in "ACGT" if c != x]) for x in s]
+        if poly and i in poly:
+            # an aligned polyA tail / polyT head: the whole block is A (T), no noise
+            cig.append((0, ln))
+            seq += [poly[i]] * ln
+            continue
         for j in range(ln):
             near = (i > 0 and j < 6) or (i + 1 < len(exons) and j >= ln - 6)
             pr = sub_rate + (junction_noise * 0.25 if near else 0.0)
@@ -428,7 +433,7 @@ def cigar_string(cig):
     return "".join("%d%s" % (n, "MIDNSHP=X"[op]) for op, n in cig)
 
 
-def noisy_dataset(seed, delta=6, n_genes=5, reads_per_iso=10, sub_rate=0.01, junction_noise=0.35):
+def noisy_dataset(seed, delta=6, n_genes=5, reads_per_iso=10, sub_rate=0.01, junction_noise=0.35, polya_exon_rate=0.12):
     """-> (Dataset, truth) ; truth[read name] = dict(chr, exons, iso (transcript id), tags)"""
     from gen import synth
     import random
@@ -460,17 +465,46 @@ def noisy_dataset(seed, delta=6, n_genes=5, reads_per_iso=10, sub_rate=0.01, jun
                     exons, tags = _noisy_read_exons(rng, t, delta, clen)
                     if not exons:
                         continue
+                    poly = None
+                    head = tail = 0
+                    if len(exons) >= 2 and not tags[:1] in (["tiny_terminal_left"], ["tiny_terminal_right"]) \
+                            and rng.random() < polya_exon_rate:
+                        # the mapper aligned the polyT head (minus-strand transcript) / polyA tail (plus strand) as a
+                        # separate small terminal exon; IsoQuant trims such exons before the assignment
+                        ln = rng.randint(20, 32)
+                        dist = rng.randint(150, 900)
+                        if strand == "-":
+                            a = exons[0][0] - dist - ln
+                            if a >= 1:
+                                exons = [(a, a + ln - 1)] + list(exons)
+                                poly = {0: "T"}
+                                head = 1
+                                tags = tags + ["polyT_head_exon"]
+                        else:
+                            a = exons[-1][1] + dist + 1
+                            if a + ln - 1 <= clen:
+                                exons = list(exons) + [(a, a + ln - 1)]
+                                poly = {len(exons) - 1: "A"}
+                                tail = 1
+                                tags = tags + ["polyA_tail_exon"]
                     scr = ()
                     if "tiny_terminal_right" in tags:
                         scr = (len(exons) - 1,)
                     elif "tiny_terminal_left" in tags:
                         scr = (0,)
-                    cig, seq = _read_cigar_seq(rng, ds.chroms[chrom], exons, sub_rate, junction_noise, scr)
+                    if head:
+                        scr = tuple(i + 1 for i in scr)
+                    cig, seq = _read_cigar_seq(rng, ds.chroms[chrom], exons, sub_rate, junction_noise, scr, poly)
                     name = "r%05d" % rid
                     rid += 1
                     flag = 16 if rng.random() < 0.5 else 0
+                    if head:
+                        flag = 16
+                    if tail:
+                        flag = 0
                     ds.add_read(name, chrom, exons[0][0] - 1, cigar_string(cig), flag=flag, seq=seq)
-                    truth[name] = {"chr": chrom, "exons": [list(x) for x in exons], "iso": tid, "tags": tags}
+                    truth[name] = {"chr": chrom, "exons": [list(x) for x in exons], "iso": tid, "tags": tags,
+                                   "polyt_head_exons": head, "polya_tail_exons": tail}
             pos = ex[-1][1] + rng.randint(600, 2500)
             if pos > clen - 400:
                 break
